@@ -289,4 +289,26 @@ CHECKS = {
                              "thorough": ["op:skip", "op:fresh", "sessions:>1", "flush:some", "entropy:periodic", "entropy:constant", "new:shorter", "new:longer", "new:empty"]},
         "stages": [rapid("overlay", "TestProp", 6400, 200000, qs=16, ts=16, qt=600, tt=5400)],
     },
+    "C12": {
+        "title": "A bsdiff series applied to the old file yields the new file",
+        "level": "exploration",
+        "technique": "bounded exhaustive enumeration + rapid property-based testing against a reference bsdiff applier; rapid state-machine-style op sequences for the read cache against a []byte model",
+        "level_text": ("(a) exhaustive: alphabet 2, old and new up to 6 (thorough: 8) bytes, partitions 0..3 (thorough 0..4); (b) rapid: lengths to "
+                       "3MiB, periodic and high-entropy, new = edited old or unrelated, old/new empty or shorter than the partition count, "
+                       "partitions 0..16, concurrency -1..4, GOMAXPROCS {1,2,16}; (c) split point j: controls j.. applied from the recorded OldOffset "
+                       "in a brand-new IndividualPatchContext; (d) lrufile op sequences (Seek x3 whences incl. out-of-range, Read, Reset) for chunk "
+                       "sizes 1..70 and capacities 1..8 against a []byte model; (e) hand-built valid control series over a 40MiB old file (beyond "
+                       "the patcher's 32MiB cache) with far seeks. Oracles: exactly one end-of-series message, last; sum(add+copy)==len(new); "
+                       "reference applier == new; PatchContext.Patch == new; resumed remainder equal; cache bytes/offsets == model."),
+        "level_note": "the bsdiff worker pipeline's schedules are sampled via GOMAXPROCS only; a panic inside its goroutines kills the process and is reported from the journal.",
+        "rule": ("enumerated cases are distinct by construction; generated ones by SHA-1 of the spec. Non-trivial: >=2 controls with a non-zero "
+                 "seek (diff stages); an op sequence that touches more chunks than the cache holds (lrufile); >=2 steps (far seeks)."),
+        "assumptions": ["old-file readers never return short reads (bytes.Reader), the contract lrufile documents"],
+        "required_classes": {"quick": ["old:empty", "new:empty", "new:shorter-than-partitions", "old:shorter-than-partitions", "cache:evictions", "seek:out-of-range", "old:>32MiB-cache"],
+                             "thorough": ["old:empty", "new:empty", "new:shorter-than-partitions", "old:shorter-than-partitions", "cache:evictions", "seek:out-of-range", "old:>32MiB-cache", "size:>1MiB"]},
+        "stages": [enum("enum", "TestEnum", qs=8, ts=16, qt=600, tt=5400),
+                   rapid("random", "TestRandom", 640, 24000, qs=16, ts=16, qt=600, tt=5400),
+                   rapid("lrufile", "TestLru", 40000, 1600000, qs=4, ts=16, qt=600, tt=5400),
+                   rapid("farseeks", "TestFar", 8, 160, qs=4, ts=8, qt=600, tt=5400, shrinktime="10s")],
+    },
 }
